@@ -65,15 +65,46 @@ def run(chk):
         seeds = W.gen_seeds(rng, spec)
         targets = sorted(set(rng.randrange(n) for _ in range(rng.randint(1, 3))))
         graph = world.graph_for(targets)
+        dropped = None
+        if idx % 5 == 2:
+            # a graph dict NOT closed under dependencies: a key other keys depend on is left out (it must not be evaluated)
+            inner = sorted(set(world.ids[d] for v in graph.values() for d in v if d in graph))
+            if inner:
+                dropped = rng.choice(inner)
+                del graph[world.comps[dropped]]
+                chk.count("non-closed-graph")
         ss = rng.random() < 0.5
         lines.extend(world.lines(seeds))
-        for o in [None] + W.linear_extensions(rng, world, graph, 2):
-            r = W.evaluate(world, seeds, ss, graph, order=o)
-            case = {"spec": W.strip(spec), "seeds": seeds, "targets": targets, "order": r.order_ids, "store_skips": ss}
+        for o in [None, "run"] + W.linear_extensions(rng, world, graph, 2):
+            r = W.evaluate(world, seeds, ss, graph, order=None if o == "run" else o, mode="run" if o == "run" else "components")
+            case = {"spec": W.strip(spec), "seeds": seeds, "targets": targets, "order": r.order_ids, "store_skips": ss,
+                    "dropped": dropped, "mode": "run" if o == "run" else "components"}
             oracle(chk, world, r, case)
             lines.append(r.run_line)
             impl.append(r.text)
             cases.append(case)
+        if idx % 5 in (2, 3):
+            # sub-graph after sub-graph on ONE broker: still at most once per component
+            b = world.new_broker(seeds, ss)
+            W.instrument(world, b)
+            world.calls = []
+            try:
+                list(dr.run_incremental(dict((k, set(v)) for k, v in graph.items()), b))
+                att = b.vlog["attempts"]
+                twice = sorted(set(c for c in att if att.count(c) > 1))
+                if twice:
+                    chk.failure("run_incremental on one broker attempted %s more than once (attempts %s)" % (twice, att),
+                                {"spec": W.strip(spec), "seeds": seeds, "targets": targets, "order": None, "store_skips": ss,
+                                 "dropped": dropped, "mode": "incremental"})
+                foreign = sorted(set(c for c in att if world.comps[c] not in graph))
+                if foreign:
+                    chk.failure("components outside the graph were attempted: %s" % foreign,
+                                {"spec": W.strip(spec), "seeds": seeds, "targets": targets, "order": None, "store_skips": ss,
+                                 "dropped": dropped, "mode": "incremental"})
+            except Exception as ex:
+                chk.failure("run_incremental raised %r" % (ex,), {"spec": W.strip(spec), "seeds": seeds, "targets": targets,
+                                                                    "order": None, "store_skips": ss, "dropped": dropped, "mode": "incremental"})
+            chk.count("incremental-schedule")
         # a later registration changes the edges among the SAME components: the next evaluation must see it
         cands = world.late_candidates(set(world.ids[k] for k in graph))
         if cands and rng.random() < 0.6:
@@ -108,4 +139,18 @@ def run(chk):
 
 
 def replay(data):
+    case = data["case"]
+    if case.get("mode") == "incremental":
+        world, seeds, graph = W.rebuild(case)
+        if case.get("dropped") is not None:
+            graph.pop(world.comps[case["dropped"]], None)
+        b = world.new_broker(seeds, case.get("store_skips", False))
+        W.instrument(world, b)
+        list(dr.run_incremental(dict((k, set(v)) for k, v in graph.items()), b))
+        att = b.vlog["attempts"]
+        twice = sorted(set(c for c in att if att.count(c) > 1))
+        foreign = sorted(set(c for c in att if world.comps[c] not in graph))
+        print("run_incremental attempts:", att, "twice:", twice, "outside the graph:", foreign)
+        print("property violated on this input" if twice or foreign else "property holds on this input")
+        return 1 if twice or foreign else 0
     return W.generic_replay(data, oracle)
